@@ -499,6 +499,13 @@ pub fn generate_c06(thorough: bool, seed: u64, part: (usize, usize), em: &mut Em
             run(em, &mut r, *pre, vec![format!("R{}", hex(&da))]);
         } } }
     }
+    // d3. every value of the fast-path update header byte (update code, fragmentation bits FIRST / NEXT / LAST in any
+    //     order — a NEXT or LAST with no FIRST before it included —, compression bits), with an empty and a small body
+    for hdr in 0..=255u8 {
+        idx += 1; if idx % part.1 != part.0 { continue; }
+        let pre = prefixes[5 + (hdr as usize % 2)];
+        run(em, &mut r, pre, vec![format!("F0:{}", hex(&[hdr, 0, 0])), format!("F0:{}", hex(&[hdr, 2, 0, 1, 2])), format!("F0:{}", hex(&[hdr, 0x20, 3, 0, 1, 2, 3]))]);
+    }
     // e. the stream itself: short / degenerate TPKT and fast-path headers at the framing entry
     {
         let mut streams: Vec<Vec<u8>> = vec![];
